@@ -82,7 +82,11 @@ func Tokens(src []byte, root ast.Vertex, clean bool) (vs []V) {
 				}
 			case lexm.Comment:
 				if t.ID != token.T_COMMENT {
-					add("comment classified as "+tokID(t), fmt.Sprintf("%q of %s", t.Value, loc))
+					shape := ""
+					if bytes.HasPrefix(t.Value, []byte("/**")) {
+						shape = " (`/**` not followed by whitespace)"
+					}
+					add("comment classified as "+tokID(t)+shape, fmt.Sprintf("%q of %s", t.Value, loc))
 				}
 			case lexm.DocComment:
 				if t.ID != token.T_DOC_COMMENT {
